@@ -34,11 +34,11 @@ ASSUMPTIONS = [
 ]
 PROBES = ["completed_by_software_rstack", "nonsoftware_rstack_during_reset", "error_during_reset", "timeout_exact", "tie_at_deadline",
           "rstack_before_request", "rstack_twice", "reply_duplicated_in_one_read", "reset_with_queued_send", "late_rstack_after_timeout", "loss_while_reset_pending", "loss_while_startup_pending",
-          "eof_while_pending", "close_while_pending", "retry_after_timeout", "joined_existing_reset", "counters_nonzero_before", "sched.batch", "sched.reorder"]
+          "eof_while_pending", "close_while_pending", "data_frame_unacknowledged_at_loss", "transport_closed_underneath", "retry_after_timeout", "joined_existing_reset", "counters_nonzero_before", "sched.batch", "sched.reorder"]
 
 SW = R.RESET_SOFTWARE
 ARRIVALS = ("before", "now", "mid", "deadline", "after", "twice", "never", "double")
-LOSS = (None, "before", "after_rst", "after_reply", "eof_after_rst", "close_after_rst")
+LOSS = (None, "before", "after_rst", "after_reply", "eof_after_rst", "close_after_rst", "tclose_after_rst")
 
 
 class App:
@@ -70,6 +70,8 @@ def plan(tier):
             for arrival in ("now", "never"):
                 for cnt in counters[:2]:
                     sweeps.append(("cell", {"waiter": waiter, "kind": "rstack", "code": SW, "arrival": arrival, "tx": cnt[0], "rx": cnt[1], "loss": loss, "sched": False}))
+                    # the same with a host DATA frame still unacknowledged when the connection goes away
+                    sweeps.append(("cell", {"waiter": waiter, "kind": "rstack", "code": SW, "arrival": arrival, "tx": cnt[0], "rx": cnt[1], "loss": loss, "sched": False, "inflight": True}))
     for seqs in (("never", "now"), ("never", "never"), ("after", "now"), ("now", "now")):
         sweeps.append(("chain", {"arrivals": list(seqs), "sched": False}))
     sweeps.append(("join", {"sched": False}))
@@ -304,14 +306,24 @@ def run_cell(params, tape, detail=False):
         loss_at = None
         if loss == "before":
             loss_at = t0 - 0.01
-        elif loss in ("after_rst", "eof_after_rst", "close_after_rst"):
+        elif loss in ("after_rst", "eof_after_rst", "close_after_rst", "tclose_after_rst"):
             loss_at = t0 + 0.0005
         elif loss == "after_reply":
             loss_at = t0 + 0.002
         st["loss_at"] = loss_at
+        if params.get("inflight"):
+            # a host DATA frame that nobody acknowledges is outstanding when the request is made and when the connection goes away
+            probe("data_frame_unacknowledged_at_loss")
+            cell.auto_ack = False
+            loop.external(t0 - 0.02, lambda: st.__setitem__("inflight", loop.create_task(cell.gw.send_data(b"inflight"))), group=None)
         if loss_at is not None:
             if loss == "eof_after_rst":
                 loop.external(loss_at, rig.transport.inject_eof, group="n2h")
+            elif loss == "tclose_after_rst":
+                # the transport is closed underneath the stack (by whoever else holds it; transport.abort()): the transport contract then
+                # delivers connection_lost(None) although neither Gateway.close() nor AshProtocol.close() ran
+                probe("transport_closed_underneath")
+                loop.external(loss_at, rig.transport.close, group="n2h")
             elif loss == "close_after_rst":
                 # an orderly close from the host side (Gateway.close() by a concurrent disconnect): connection_lost(None)
                 loop.external(loss_at, cell.gw.close, group="n2h")
@@ -323,6 +335,8 @@ def run_cell(params, tape, detail=False):
         st["task_done"] = task.done()
         if not task.done():
             task.cancel()
+        if st.get("inflight") is not None and not st["inflight"].done():
+            st["inflight"].cancel()
         # C11.zero: numbering after a completed handshake
         out = res.get("outcome")
         if out is not None and out[0] == "ok" and loss_at is None:
@@ -341,7 +355,7 @@ def run_cell(params, tape, detail=False):
         viol.append(("C11.timeout", "sim-" + outcome, f"{tag}: simulation ended with {outcome}: {val!r}"))
     elif "t_req" in res:
         loss_at = st.get("loss_at")
-        if loss in ("eof_after_rst", "close_after_rst"):
+        if loss in ("eof_after_rst", "close_after_rst", "tclose_after_rst"):
             # Gateway.eof_received / connection_lost(None) make a ConnectionResetError of their own
             o = res.get("outcome")
             if o is not None and o[0] == "raised" and isinstance(o[1], ConnectionResetError):
@@ -383,7 +397,7 @@ def run_cell(params, tape, detail=False):
         if loss_at is not None and loss != "before" and outcome == "done":
             if loss == "eof_after_rst":
                 ok = len(app.lost) == 1 and isinstance(app.lost[0][1], ConnectionResetError)
-            elif loss == "close_after_rst":
+            elif loss in ("close_after_rst", "tclose_after_rst"):
                 ok = not app.lost  # a deliberate close is not reported to the application
             else:
                 ok = len(app.lost) == 1 and app.lost[0][1] is exc
@@ -525,8 +539,15 @@ def run_chain(scenario, params, tape, detail=False):
             if not arrivals and tape.draw(6, "loss?") == 5:
                 loss_at = t0 + (0.0005, 0.002, 0.3, limit_len, limit_len + 0.1)[tape.draw(5, "loss_at")]
                 grp = None if tape.draw(2, "lossgrp") else "n2h"
-                lk = tape.draw(3, "losskind")  # 0 read error, 1 EOF, 2 orderly close from the host side
-                if lk == 0:
+                lk = tape.draw(4, "losskind")  # 0 read error, 1 EOF, 2 orderly close from the host side, 3 transport closed underneath
+                if tape.draw(3, "inflight") == 2:
+                    probe("data_frame_unacknowledged_at_loss")
+                    cell.auto_ack = False
+                    loop.external(t0 - 0.02, lambda: loop.create_task(cell.gw.send_data(b"inflight")), group=None)
+                if lk == 3:
+                    probe("transport_closed_underneath")
+                    loop.external(loss_at, rig.transport.close, group=grp)
+                elif lk == 0:
                     loop.external(loss_at, rig.transport.inject_lost, exc, group=grp)
                 elif lk == 1:
                     loop.external(loss_at, rig.transport.inject_eof, group=grp)
